@@ -30,7 +30,7 @@ theorem zeros_size (n : Nat) : (zeros n).size = n := by
   rw [← toL_length, toL_zeros]; simp
 
 theorem toL_copySlice (src dest : ByteArray) (o : Nat) :
-    toL (src.copySlice 0 dest o src.size) = (toL dest).take o ++ toL src ++ (toL dest).drop (o + src.size) := by
+    toL (src.copySlice 0 dest o src.size false) = (toL dest).take o ++ toL src ++ (toL dest).drop (o + src.size) := by
   have h1 : src.data.extract 0 (0 + src.size) = src.data := by
     simp [← ByteArray.size_data]
   simp only [toL, ByteArray.copySlice, h1]
